@@ -119,8 +119,60 @@ class Scan(ast.NodeVisitor):
         self.generic_visit(n)
 
 
+def _scan_all() -> tuple[dict, Any]:
+    scans: dict[str, tuple[str, Scan, ast.AST]] = {}
+    for cls in classes():
+        for name, fn in vars(cls).items():
+            raw = fn.__func__ if isinstance(fn, (classmethod, staticmethod)) else fn
+            if inspect.isfunction(raw):
+                tree = ast.parse(textwrap.dedent(inspect.getsource(raw)))
+                sc = Scan()
+                sc.visit(tree)
+                scans[name] = (cls.__name__, sc, tree)
+
+    def self_calls(tree: ast.AST) -> list[tuple[str, bool, int]]:
+        out: list[tuple[str, bool, int]] = []
+
+        class V2(Scan):
+            def visit_Call(self, n: ast.Call) -> None:  # type: ignore[override]
+                f = n.func
+                if isinstance(f, ast.Attribute) and isinstance(f.value, ast.Name) and \
+                        f.value.id == "self":
+                    out.append((f.attr, self.depth > 0, n.lineno))
+                ast.NodeVisitor.generic_visit(self, n)
+        V2().visit(tree)
+        return out
+    return scans, self_calls
+
+
+def requiring_closure() -> set[str]:
+    """Declared requiring functions plus private helpers that touch the transport without taking
+    the lock themselves but are only ever called with the lock held (every call site is under
+    the lock or inside a requiring function, and there is at least one)."""
+    scans, self_calls = _scan_all()
+    R = set(REQUIRES)
+    changed = True
+    while changed:
+        changed = False
+        for name, (cn, sc, tree) in scans.items():
+            if name in R or name in ACQUIRES:
+                continue
+            touches = any(k in ("transport-io", "requires-call") and not under
+                          for _, k, _, under in sc.sites) or any(
+                c in R and not under for c, under, _ in self_calls(tree))
+            if not touches:
+                continue
+            sites = [(caller, under) for caller, (_, _, t2) in scans.items()
+                     for c, under, _ in self_calls(t2) if c == name]
+            if sites and all(under or caller in R for caller, under in sites):
+                R.add(name)
+                changed = True
+    return R
+
+
 def permission_harness(I: Interp) -> None:
     n_sites = 0
+    held_by_contract = requiring_closure()
     for cls in classes():
         for name, fn in vars(cls).items():
             raw = fn.__func__ if isinstance(fn, (classmethod, staticmethod)) else fn
@@ -131,7 +183,7 @@ def permission_harness(I: Interp) -> None:
             sc = Scan()
             sc.visit(tree)
             I.ex.functions[f"{cls.__module__}.{cls.__name__}.{name}"] = str(hash(src) & 0xFFFFFFFF)
-            holder = name in REQUIRES
+            holder = name in held_by_contract
             for line, kind, callee, under in sc.sites:
                 n_sites += 1
                 oid = f"P1-{cls.__name__}.{name}:{kind}:{callee}"
@@ -190,7 +242,7 @@ def permission_harness(I: Interp) -> None:
     while changed:
         changed = False
         for name, (cn, sc, tree) in scans.items():
-            if name in REQUIRES or name in inferred:
+            if name in held_by_contract or name in inferred:
                 continue
             unlocked_io = any(k in ("transport-io", "requires-call") and not under
                               for _, k, _, under in sc.sites)
@@ -203,7 +255,7 @@ def permission_harness(I: Interp) -> None:
             if callee in inferred:
                 n_sites += 1
                 I.prove(f"P1-{cn}.{name}:call-of-unlocked-transport-user:{callee}(holds-mutex)",
-                        z3.BoolVal(under or name in REQUIRES), f"line +{line}")
+                        z3.BoolVal(under or name in held_by_contract), f"line +{line}")
     # P4: a function that requires the permission keeps it throughout: neither it nor anything
     # it calls on self releases the mutex
     def releases(tree: ast.AST) -> bool:
